@@ -405,6 +405,11 @@ func contentEq(arrA, offA, arrB, offB, n *Term) *Term {
 	}
 	k := BoundVar(fresh("k"), 64)
 	all := Forall(k, Implies(And(SLe(BVu(0, 64), k), SLt(k, n)), Eq(Select(arrA, Add(offA, k), 8), Select(arrB, Add(offB, k), 8))))
+	if arrA.hasBound || arrB.hasBound || offA.hasBound || offB.hasBound || n.hasBound {
+		// inside another quantifier's body: the comparison depends on that bound variable and cannot be named globally
+		all.hasBound = true
+		return all
+	}
 	qf := &Term{Leaf: fresh("qfeq"), W: 0, QDef: all}
 	contentEqMemo[key] = qf
 	return qf
